@@ -10,6 +10,8 @@
                   on the bundled registry (contexts, default systems, new definitions, lookups that register prefixed units,
                   conversions, parsing, base units, dimensionality, listings, formatting, to_compact) and their fresh twins:
                   Trace_Hist keeps the first answer per (declarative state, question) and rejects any other.
+   The context pool is part of the declarative state: a context given another redefinition, or removed and replaced by a rebuilt
+   context of the same name, answers by its current content whatever was activated and asked before (edit sequences up to 3 / 4).
    Registries are isolated: operations on one never move the probe vector of another (same definitions, other numeric
    type; the lazily built application registry).
 """
@@ -30,7 +32,7 @@ def run(chk):
     dump = os.path.join(wd, "pint.dump")
     g = chk.tlc("gen", "MC_Pint", "MC_Pint_gen.cfg", wd=wd, args=["-dump", dump], count=False)
     model = pm.Model(pm.parse_const(g.out))
-    behs = pm.behaviours_from_dump(dump, 3)
+    behs = pm.thin_two_name(pm.behaviours_from_dump(dump, 3), thorough)
     os.remove(dump)
     if len(behs) < 500:
         raise MachineryError("generator produced only %d behaviours" % len(behs))
@@ -93,6 +95,7 @@ def run(chk):
 
     isolation(chk, model, rng)
     redefinition_after_use(chk)
+    context_edit_history(chk, thorough)
     return chk.finish(
         rule="cases = behaviours of MC_Pint executed sparsely (only logged queries ask) with the final probe vector compared with the "
              "specification; random sparse histories with fresh-registry twins validated by Trace_Pint; histories on the bundled registry "
@@ -377,3 +380,42 @@ def replay(chk, rec):
     print(json.dumps(rec["detail"], indent=1)[:4000])
     chk.seed = rec.get("seed", 0)
     return run(chk)
+
+
+# ------------------------------------------------------------------------------------------------ edited contexts
+def context_edit_history(chk, thorough):
+    """The context pool is part of the declarative state: after a context object was given another redefinition of the same unit
+    (Context.redefine: the last one wins), or was removed and replaced by a rebuilt context of the same name, the answers with
+    the context active are those of its *current* content - whatever was activated and asked before the edit.
+    Registry: a = [A], c = 3 a, e = 5 c; context k redefines c = v a: inside 1 e = 5 v a, outside 15 a."""
+    import itertools
+    import pint
+    L = ["a = [A]", "c = 3 a", "e = 5 c"]
+    vals = (4, 6, 8)
+    steps1 = [("new", v) for v in vals]
+    stepsn = steps1 + [("redef", v) for v in vals]
+    for n in (2, 3, 4) if thorough else (2, 3):
+        for seq in itertools.product(steps1, *([stepsn] * (n - 1))):
+            for ask_between in (True, False):
+                chk.case(("context-edit", seq, ask_between))
+                sig = {"clause": "context-edit-history", "asked_between": ask_between, "last_edit": seq[-1][0]}
+                try:
+                    u = pint.UnitRegistry(L, non_int_type=F)
+                    ctx = None
+                    for i, (kind, v) in enumerate(seq):
+                        if kind == "new":
+                            if ctx is not None:
+                                u.remove_context("k")
+                            ctx = pint.Context("k")
+                            u.add_context(ctx)
+                        ctx.redefine("c = %d a" % v)
+                        if ask_between or i == len(seq) - 1:
+                            with u.context("k"):
+                                inside = (u.Quantity(F(1), "e").to("a").magnitude, u.get_root_units("e")[0], u.get_base_units("c")[0])
+                            outside = u.Quantity(F(1), "e").to("a").magnitude
+                            if inside != (5 * v, 5 * v, v) or outside != 15:
+                                chk.diverge(sig, {"registry": L, "edits": list(seq[:i + 1]), "inside": [str(x) for x in inside], "outside": str(outside),
+                                                  "expected_inside": [5 * v, 5 * v, v], "expected_outside": 15})
+                                break
+                except Exception as e:
+                    chk.diverge(dict(sig, exc=type(e).__name__), {"registry": L, "edits": list(seq), "error": repr(e)[:200]})
